@@ -77,7 +77,7 @@ static void run() {
     ev.enumerated["low-weight payloads (<=2 of 164 bits) x languages x coins{0,1,1024,2047} [this worker's shard]"] += done;
     // (ii) random
     rc_run("c03-random", a.n(60000, 400000), 100, [&]() {
-        auto sec = *g::secret19(); int bd = *g::birthday(); unsigned feat = *in_range<unsigned>(0, 32) & 0x17u; int coin = *g::coin(); int li = *g::lang_index();
+        auto sc = *g::seed_coin(); auto sec = sc.sec; int bd = sc.bd; unsigned feat = sc.feat; int coin = sc.coin; int li = *g::lang_index(); if (sc.patterned) W().ev.count("gen:patterned-word-indices");
         Case c; c.set("secret", hex(sec)); c.set("birthday", (uint64_t)bd); c.set("features", feat); c.set("coin", (uint64_t)coin); c.set("lang", REG->at(li).name_en);
         c.set("mask", *in_range<unsigned>(0, 8)); c.set("randtop", *in_range<unsigned>(0, 4)); c.set("purity", *in_range<int>(0, 3) == 0 ? 1 : 0); c.set("otherlang", (uint64_t)*g::lang_index()); c.set("othermask", *in_range<unsigned>(0, 8)); c.set("class", "random");
         set_current(c); std::string m = oracle(c); if (!m.empty()) VF_FAIL(c, m);
